@@ -5,7 +5,7 @@
 #   3. the demonstration fails with it and passes without it, 4. runs the property's check against the patched tree.
 # The worktree is removed afterwards.  Prints one summary line:  SEED <ID> <patch> suite=<ok|FAIL> demo=<ok|BAD> check=<CAUGHT|missed|error>
 ID="$1"; PATCH="$(realpath "$2")"; DEMO="${3:+$(realpath "$3")}"; TIER="${4:-quick}"
-WT="$(mktemp -d /tmp/seedwt.XXXXXX)"; rmdir "$WT"
+WT="$(mktemp -d /tmp/seedwt.XXXXXX)"; rmdir "$WT"; XIDS="${@:5}"
 git -C /repo worktree add -q --detach "$WT" HEAD || exit 2
 cleanup() { git -C /repo worktree remove --force "$WT" 2>/dev/null; rm -rf "$WT"; }
 trap cleanup EXIT
